@@ -1,0 +1,5 @@
+//go:build !verif
+
+package phase2
+
+func verifPivots(int, int, int) {}
